@@ -15,6 +15,7 @@ import ReuseVerif.Lemmas.TagsCopyright
 import ReuseVerif.Lemmas.TagsText
 import ReuseVerif.Lemmas.Window
 import ReuseVerif.Lemmas.Merge
+import ReuseVerif.Lemmas.C02Lines
 import ReuseVerif.Theorems.C20
 
 namespace C02
@@ -182,6 +183,87 @@ theorem C02_tag_found_in_text (endRe body : Re) (hstar : starBody endRe = some b
   exact List.mem_map.mpr ⟨(pre, v),
     findAll_found endRe tag hnl ls pre blanks v pieces.flatten after hfree hshape hend
       (noEndSuffix_of_last endRe v _ hnlv hlast), cleanTag_plain pre v hs hf⟩
+
+/-! ### texts of arbitrary lines: hypotheses about each line alone -/
+
+/-- **Table obligation.**  The END expression generated from the source reads a line feed only inside the `\s*`
+    that follows `"`, `'` or `]` (`"\s*/*>`, `'\s*/*>`, `]\s*::`); decided on the expression by the abstract run
+    `Spec.guardStep`.  (An ending added to `_END_PATTERN` that can cross a line end elsewhere breaks this.) -/
+theorem C02_end_guarded : EndGuarded Generated.endRe := by decide
+
+/-- **END stops at the end of its own line** — the hypothesis `endStopsAt` of `C02_tag_lines`, which had to be decided
+    per text, *derived*: for every END expression with the structure above, after a trail it accepts that does not
+    end (white space aside) with `"`, `'` or `]`, END ends where the line ends, whatever text follows. -/
+theorem C02_end_stops (endRe : Re) (hG : EndGuarded endRe) (trail rest : Text) (hnl : noNewline trail = true)
+    (hok : endOk endRe trail = true) (hopen : openEnd trail = false) : endStopsAt endRe trail rest = true :=
+  C02L.endStopsAt_of_guarded hG trail rest hnl hok hopen
+
+/-- **Any number of tag lines with arbitrary other lines between them.**  The text is a sequence of lines (separated
+    by line feeds; a final line feed is an empty last line), each either a line in which no `TAG[ \t]` starts —
+    otherwise arbitrary: code, prose, other tags, unclosed quotes — or a tag line
+    `pre ++ TAG ++ blanks ++ v ++ trail` satisfying `tagLineOK`: conditions on *that line alone* (shape; END
+    accepts the trail; the trail does not end with `"`, `'`, `]`; no tail of the value can begin a run of
+    terminators; the value is stripped and does not end like the mirrored frame).  Then `find_spdx_tag` returns
+    exactly the values of the tag lines, in order.  Supersedes `C02_tag_lines` (no per-text hypothesis). -/
+theorem C02_tag_lines_general (endRe : Re) (hG : EndGuarded endRe) (tag : Text) (hnl : '\n' ∉ tag)
+    (ls : List TextLine) (hok : ∀ l ∈ ls, l.ok endRe tag = true) :
+    findSpdxTagWith endRe tag (textOf tag ls) = ls.filterMap (·.value) :=
+  C02L.findTag_text hG tag hnl ls hok
+
+/-- the hypotheses are satisfiable:
+    `#!/bin/sh` / `# SPDX-License-Identifier: MIT */ -->` / `x = "unclosed` / `// SPDX-License-Identifier: \tGPL-2.0+` / `` -/
+example : findSpdxTagWith Generated.endRe Generated.licenseTag (textOf Generated.licenseTag
+    [.free "#!/bin/sh".toList, .tagged ⟨"# ".toList, " ".toList, "MIT".toList, " */ -->".toList⟩,
+     .free "x = \"unclosed".toList, .tagged ⟨"// ".toList, " \t".toList, "GPL-2.0+".toList, []⟩, .free []]) =
+    ["MIT".toList, "GPL-2.0+".toList] := by
+  have h1 := C02L.tagLineOK_of_syn Generated.endRe Generated.licenseTag
+    ⟨"# ".toList, " ".toList, "MIT".toList, " */ -->".toList⟩ [" ".toList, "*/".toList, " ".toList, "-->".toList]
+    (by decide +kernel)
+  have h2 := C02L.tagLineOK_of_syn Generated.endRe Generated.licenseTag
+    ⟨"// ".toList, " \t".toList, "GPL-2.0+".toList, []⟩ [] (by decide +kernel)
+  refine C02_tag_lines_general Generated.endRe C02_end_guarded Generated.licenseTag (by decide) _ ?_
+  intro l hl
+  simp only [List.mem_cons, List.not_mem_nil, or_false] at hl
+  rcases hl with rfl | rfl | rfl | rfl | rfl
+  · decide +kernel
+  · exact h1
+  · decide +kernel
+  · exact h2
+  · decide +kernel
+
+/-- `C02_tag_lines` follows: its per-text hypotheses are implied by the per-line ones. -/
+theorem C02_tag_lines_of_line_hyps (endRe : Re) (hG : EndGuarded endRe) (tag : Text) (hnl : '\n' ∉ tag)
+    (ls : List TagLineSpec) (hok : ∀ s ∈ ls, tagLineOK endRe tag s = true) :
+    findSpdxTagWith endRe tag (linesText tag ls) = ls.map (·.v) := by
+  have h := C02_tag_lines_general endRe hG tag hnl (ls.map .tagged ++ [.free []])
+    (by
+      intro l hl
+      simp only [List.mem_append, List.mem_map, List.mem_singleton] at hl
+      rcases hl with ⟨s, hs, rfl⟩ | rfl
+      · exact hok s hs
+      · rfl)
+  rw [C02L.textOf_tagged, C02L.values_tagged] at h
+  exact h
+
+/-- **A tag line is found wherever it stands.**  After *any* text that ends a line (`U` empty or ending with a line
+    feed: it may hold tags, values running on, unclosed quotes — no "tag-free lines above" restriction as in
+    `C02_tag_found_in_text`) and before any text, a tag line satisfying the line-local hypotheses contributes its
+    value: the scan cannot jump over it, because the tag holds a character END cannot consume (`tagUnusable`). -/
+theorem C02_tag_found_anywhere (endRe : Re) (tag : Text) (hnl : '\n' ∉ tag) (hun : tagUnusable endRe tag = true)
+    (s : TagLineSpec) (hok : tagLineFound endRe tag s = true) (U after : Text)
+    (hU : U = [] ∨ ∃ u, U = u ++ ['\n']) :
+    s.v ∈ findSpdxTagWith endRe tag (U ++ (s.line tag ++ '\n' :: after)) :=
+  C02L.found_anywhere endRe tag hnl hun s hok U after hU
+
+/-- the hypotheses are satisfiable: a licence line after a contributor line whose quoted value runs on -/
+example : "MIT".toList ∈ findSpdxTagWith Generated.endRe Generated.licenseTag
+    ("SPDX-FileContributor: \"Jane\n".toList ++
+      ((⟨"# ".toList, " ".toList, "MIT".toList, " */".toList⟩ : TagLineSpec).line Generated.licenseTag ++
+        '\n' :: "/> anything".toList)) :=
+  C02_tag_found_anywhere Generated.endRe Generated.licenseTag (by decide) (by decide +kernel) _
+    (C02L.tagLineFound_of_ok (C02L.tagLineOK_of_syn Generated.endRe Generated.licenseTag _ [" ".toList, "*/".toList]
+      (by decide +kernel))) _ _
+    (.inr ⟨"SPDX-FileContributor: \"Jane".toList, by decide⟩)
 
 /-! ### copyright notices -/
 
